@@ -1,6 +1,7 @@
 """C06 -- automaton-driven enumeration (M1, M2, M3, U1)."""
 from ..rules import enum_rules as E
 from ..rules import cache_rules as CA
+from ..rules import sibling_rules as SI
 from ..rules.common import u1, n1
 
 REP = E.REP
@@ -23,6 +24,7 @@ def run(ctx):
     ctx.do(n1, ["geometry_tools/representation.py", "geometry_tools/automata/fsa.py"])
     ctx.do(CA.rule_c2, "Representation")
     ctx.do(E.rule_m4)
+    ctx.do(SI.rule_fw1)
     ctx.do(u1, ENTRIES, min_functions=10)
     ctx.r.assume("equality of the returned word set with the automaton's "
                  "language, free-group uniqueness and memo reuse across "
